@@ -106,3 +106,21 @@ package worker
 //@   calls worker.closeRunner#1: requires forall k int :: 0 <= k && k < len(ctrUUIDs) ==> ctrUUIDs[k] != $0
 //@   loop 1: invariant wkr == old(wkr) && ctrUUIDs == old(ctrUUIDs) && alive != nil && (forall k int :: 0 <= k && k < $i ==> has(alive, ctrUUIDs[k]) && alive[ctrUUIDs[k]])
 //@   loop 2: invariant wkr == old(wkr) && ctrUUIDs == old(ctrUUIDs) && alive != nil && (forall k int :: 0 <= k && k < len(ctrUUIDs) ==> has(alive, ctrUUIDs[k]) && alive[ctrUUIDs[k]])
+
+// KillContainer: "false" means that no worker has a runner for this container,
+// neither running nor starting (this is what lets the scheduler lock or start
+// the container again); a runner that is found is told to stop.
+//@ func remoteRunner.Kill trusted
+//@   modifies remoteRunner.stopping
+//@ spec macro noRunner(wp, uuid, n) bool = forall j int :: 0 <= j && j < n ==> (!has(mapat(wp.workers, j).running, uuid) || mapat(wp.workers, j).running[uuid] == nil) && (!has(mapat(wp.workers, j).starting, uuid) || mapat(wp.workers, j).starting[uuid] == nil)
+//@ func Pool.KillContainer property C14
+//@   ensures !result ==> noRunner(wp, uuid, len(wp.workers))
+//@   loop 1: invariant wp == old(wp) && uuid == old(uuid) && noRunner(wp, uuid, $i)
+//@   calls remoteRunner.Kill#1: requires $recv != nil
+
+// ForgetContainer removes the exited-placeholder of this container only and
+// touches no worker's running/starting sets.
+//@ func Pool.ForgetContainer property C14
+//@   modifies map[string]time.Time
+//@   ensures !has(wp.exited, uuid)
+//@   ensures forall u string :: u != uuid ==> dom(wp.exited)[u] == old(dom(wp.exited)[u]) && wp.exited[u] == old(wp.exited[u])
